@@ -417,6 +417,11 @@ pub fn op_errmap(run: &mut Run, path: &'static str, call: &'static str, e: Injec
     if path.starts_with("tcp") && call == "conn" && name == "in-progress" && out != "ok" {
         run.fail("c09-errmap-in-progress", format!("{req} => {out}"));
     }
+    // the transient send failures the IPv4 dispatch code names ("Some errors are transient and should not be considered
+    // fatal", strategy.rs): the kernel refusing one datagram with host/network unreachable fails that probe only
+    if (path == "icmp4" || path == "udpraw4") && call == "send" && (name == "host-unreachable" || name == "net-unreachable") && out != "probe-failed" {
+        run.fail("c09-errmap-transient-send", format!("{req} => {out} (a transient send failure must fail just that probe)"));
+    }
     if out == "ok" && name != "in-progress" {
         run.fail("c09-errmap-swallowed", format!("{req} => {out}"));
     }
